@@ -817,6 +817,11 @@ func (g *gen) totalField(m *Message, f *Field) {
 	if f.Kind == "message" && f.Card != "map" {
 		payloadMax = g.strLen // nested decode is stubbed (assume-guarantee), payload is only sliced
 	}
+	if f.Card == "map" && payloadMax > 4 {
+		// thorough: 4 bytes hold a complete entry (key and value sub-records); with 5 the
+		// sint32-keyed map alone ran past an hour (measured), the others took 8 minutes
+		payloadMax = 4
+	}
 	g.p("// one arbitrary (possibly ill-typed) record for field %s decoded into an arbitrary pre-state", f.GoName)
 	tag := ""
 	if f.Card == "map" && f.Val.Kind == "message" {
